@@ -252,3 +252,15 @@ def r6(ctx: Ctx) -> None:
     ites = atoms_of(cr, lambda x: x[0] == "ite" and k_num(0) in (x[2], x[3]) and contains(x[1], "len"))
     if not ites:
         ctx.report(fr.where, "allocation-default-depth", "the allocation reader's default depth is not 0", lineno=fr.node.lineno)
+
+
+from . import C04 as _c04
+
+
+@rule("C19", "R7.netlist-writer", "SHARED(C04)",
+      "the canonical netlist writer (one of the documents FRAME produces) emits every key the reader accepts, keeps "
+      "per-region areas, and its kind flags decode to the same kind -- the C04 rules R1, R2, R4 evaluated for C19", floor=8)
+def r7(ctx: Ctx) -> None:
+    _c04.r1(ctx)
+    _c04.r2(ctx)
+    _c04.r4(ctx)
